@@ -118,6 +118,14 @@ PROPS["C16"] = {
     "trusted_base": ["callbacks are bound methods of recorder objects; coroutine callbacks run on a real asyncio loop"],
     "assumptions": ["removal happens between messages, not from inside a callback (the quantifier's reading)"],
 }
+PROPS["C17"] = {
+    "suites": [("comp_wait", "gen_cases")],
+    "rule": "virtual-time grid 1..9: one batch at every instant (matching, non-matching, mixed batches of up to 4 events) x timeout {none, 3, 6} (ties with the timeout instant excluded) x "
+            "polling {off, (1,2), (2,3), (3,1)} x condition kind {check, expect, initial} x event kind {value, state}; random multi-batch streams with 1-3 concurrent waits; concurrent "
+            "waits released by the same event; distinct by (kinds, configuration, batches, number of waits)",
+    "trusted_base": ["tools/vloop.py: SelectorEventLoop subclass with a virtual clock; timers due at the same instant fire in creation order; event batches are call_at callbacks created before the waits"],
+    "assumptions": ["asyncio's Event/task/timer semantics as recorded in DESIGN.md section 5 (L2g): modelled, tied by running the real coroutine on the virtual loop"],
+}
 PROPS["CLITEST"] = {"suites": [("comp_cli", "gen_c15"), ("comp_cli", "gen_c16")], "rule": "cli bring-up"}
 PROPS["C12TEST"] = {"suites": [("comp_dev", "gen_c12")], "rule": "c12 bring-up"}
 
